@@ -413,6 +413,7 @@ func keyNorm(name string) string {
 	}
 	return strings.ToLower(name)
 }
+
 var scalarKinds = []string{"bool", "int", "int8", "int16", "int32", "int64", "uint", "uint8", "uint16", "uint32", "uint64", "float32", "float64", "string", "string", "int64",
 	"nuint16", "nint32", "nbool", "nfloat64", "nstring"} // n...: named types with that underlying kind
 var otherKinds = []string{"bytes", "ints", "strs", "mapsi", "pint", "pstr", "ppint", "any", "any", "arr3", "mapsm", "nstrs", "nports", "nmapli"}
